@@ -53,11 +53,11 @@ class GhostPos(object):
         self.fn = fn
         self.prog = prog
         self.cfg = nullness.prepared_cfg(fn, NORETURN)
-        self.selfd = fn.params[self_index]["d"] if fn.params else None
+        self.selfd = fn.params[self_index]["d"] if (fn.params and self_index is not None) else None
         self.intvars = set()
         self.ptrvars = set()
-        for p in fn.params[1:]:
-            if p.get("tw") and not p.get("tp"):
+        for p in fn.params:
+            if p["d"] != self.selfd and p.get("tw") and not p.get("tp"):
                 self.intvars.add(p["d"])
         for d, vd in fn.vardecls.items():
             if vd.get("tp"):
@@ -141,6 +141,13 @@ class GhostPos(object):
         if k == "un" and s.get("op") == "-":
             a = self.lin(s["ch"][0])
             return -a if a is not None else None
+        if k == "un" and s.get("op") in ("++", "--"):
+            # value of x++ / ++x, read in the state AFTER the increment executed (clients visit the enclosing expression)
+            a = self.lin(s["ch"][0])
+            if a is None:
+                return None
+            d = 1 if s["op"] == "++" else -1
+            return a - d if s.get("post") else a
         return None
 
     def pos(self, e):
@@ -602,3 +609,49 @@ class GhostPos(object):
 
 def show(cons):
     return " & ".join(sorted("%r>=0" % c for c in cons))
+
+
+def entry_from_callers(fn, unit, make_engine):
+    """Constraints over fn's integer parameters that hold at every call site inside the unit (context for a static helper that
+    a refactoring extracted): for each call, the caller's state before the call is extended with `param == argument` and
+    projected onto the parameters; several call sites are joined (bounds hull).  None when fn has no unit-local caller."""
+    sites = []
+    for g in unit.functions.values():
+        if g is fn or g.cfg is None:
+            continue
+        for c in X.calls_in(g.body):
+            if X.callee_name(c) == fn.name:
+                sites.append((g, c))
+    if not sites or not fn.static:
+        return None
+    result = None
+    for g, c in sites:
+        eng = make_engine(g)
+        eng.run()
+        sts = eng.states_before(c["i"])
+        for st in sts:
+            cons = set(st)
+            params = []
+            for p, a in zip(fn.params, c["ch"][1:]):
+                if p.get("tp") or not p.get("tw"):
+                    continue
+                la = eng.lin(a)
+                if la is None:
+                    continue
+                ps = "q%d" % p["d"]
+                cons.add(Lin.sym(ps) - la)
+                cons.add(la - Lin.sym(ps))
+                params.append((ps, p["d"]))
+            syms = set()
+            for e in cons:
+                syms.update(e.syms())
+            for s_ in sorted(syms):
+                if not s_.startswith("q"):
+                    cons = project(cons, s_)
+                    if len(cons) > 300:
+                        cons = set()
+                        break
+            ren = {ps: Lin.sym("v%d" % d) for ps, d in params}
+            cur = frozenset(e.subst(ren) for e in cons)
+            result = cur if result is None else eng.join(result, cur, False)
+    return result
